@@ -33,6 +33,7 @@ DApply(fn, a) ==
       [] fn = "cut"  -> IF a[1][1] > a[2][1] THEN DSub(a[1], a[2]) ELSE a[1]
       [] fn = "cap"  -> IF a[1][1] < a[2][1] THEN a[1] ELSE a[2]
       [] fn = "swp"  -> DSub(DMul(DConst(2), a[2]), a[1])
+      [] fn = "kwo"  -> DAdd(DMul(DConst(3), a[1]), a[2])
       [] fn = "mad"  -> DAdd(DMul(a[1], a[2]), a[3])
 
 \* lift an integer-valued model content to duals with derivative 0
